@@ -10,7 +10,9 @@ Layer B  spec/Persist/Persist.tla       OnFinished transcribed action for action
    complete behaviours by simulation). The harness forces each through the gate of the verif hook into
    the REAL OnFinished in exactly that order (prefixes are then left to finish on their own).
 3. code -> spec: the real OnFinished is run for every (n, k, fault vector) of the tier under random
-   yields (free) and under a serialized random scheduler (rand).
+   yields (free) and under a serialized random scheduler (rand); also without a post-processor, with
+   concurrency <= 0, with 6..12 jobs (beyond the model's bounds), and through the real
+   Generator.Generate + Generator.Persist on a real directory (harness subcommand persistfs).
 4. Verdict: every recorded run is validated by TLC against layer A (Trace_PersistSpec; the event order
    comes from one mutex-protected log, never from clocks); a run that does not return is a liveness
    violation. A rejected run is re-executed before it is reported.
@@ -41,18 +43,22 @@ REGISTRY = dict(
     design_ref="DESIGN.md 6 C19, 5 hook 1",
     note="Trusted: TLC, harness/cmd/inproc/persist.go (gate, fake post-processor and write callback, one mutex-ordered "
          "log). Bounds: quick n<=4 k<=3 (model check n<=4 k<=2), thorough n<=5 k<=3; distinct paths; a panic inside "
-         "PostProcess and a nil post-processor are outside the universe. A hang is decided by a watchdog (8 s, "
-         "re-executed with 20 s). The outcome of a select with both branches ready cannot be forced; both are accepted.",
+         "PostProcess is outside the universe. Also covered: no post-processor (p.pp == nil), concurrency <= 0, "
+         "6..12 jobs with up to 5 workers (random, abstract spec only), and Generator.Generate + Generator.Persist on a "
+         "real directory (GOMAXPROCS as concurrency, real MkdirAll / WriteFile failures). A hang is decided by a "
+         "watchdog (8 s, re-executed with 20 s). The outcome of a select with both branches ready cannot be forced; "
+         "both are accepted. Differences between the real code and the implementation-shaped model that the abstract "
+         "spec allows are reported as a note (model drift), not as a violation.",
     technique="TLA+ model checking (safety, liveness, refinement) + TLC-generated schedules replayed through a "
               "scheduler gate + TLC trace validation of every run")
 
 TIERS = {
     # mc: (MaxN, MaxK, PPChoices); cover/sim: generation bounds; rnd: random runs per (n, k, fault vector, mode);
     # big: random runs beyond the model's bounds (layer A only); fs: Generator.Persist on a real directory
-    "quick": dict(mc=[(4, 2, "{TRUE}"), (3, 2, "{FALSE}")], cover=(3, 2), sim=dict(n=4, k=3, num=1000),
+    "quick": dict(mc=[(4, 2, "{TRUE}"), (3, 2, "{FALSE}")], cover=[(3, 2)], sim=dict(n=4, k=3, num=1000),
                   rnd=dict(n=4, k=3, reps=1), nopp=dict(n=3, k=2), big=dict(ns=(6, 8), k=4, num=150),
                   fs=dict(n=3, k=2), btrace=600),
-    "thorough": dict(mc=[(5, 3, "{TRUE}"), (4, 3, "{FALSE}")], cover=(4, 3), sim=dict(n=5, k=3, num=40000),
+    "thorough": dict(mc=[(5, 3, "{TRUE}"), (4, 3, "{FALSE}")], cover=[(4, 2), (3, 3)], sim=dict(n=5, k=3, num=30000),
                      rnd=dict(n=5, k=3, reps=6), nopp=dict(n=4, k=3), big=dict(ns=(6, 7, 8, 10, 12), k=5, num=3000),
                      fs=dict(n=4, k=3), btrace=15000),
 }
@@ -86,6 +92,15 @@ def classify(t):
         return "no-return"
     if t.get("panic"):
         return "panic"
+    exp = {j["path"]: ("pp(%s)" % j["content"] if t.get("withpp", True) else j["content"]) for j in t["jobs"]}
+    raw = {j["path"]: j["content"] for j in t["jobs"]}
+    for e in t["ev"]:
+        if e["e"] != "ret" and e["path"] not in exp:
+            return "wrong-path"
+        if e["e"] == "wBegin" and exp[e["path"]] != e["content"]:
+            return "wrong-content"
+        if e["e"] == "ppBegin" and raw[e["path"]] != e["content"]:
+            return "wrong-content"
     inwr, written, retd, ret_ok, failed = set(), {}, False, None, False
     for e in t["ev"]:
         k = e["e"]
@@ -107,12 +122,6 @@ def classify(t):
             failed = failed or not e["ok"]
         elif k == "ppEnd":
             failed = failed or not e["ok"]
-    exp = {j["path"]: ("pp(%s)" % j["content"] if t.get("withpp", True) else j["content"]) for j in t["jobs"]}
-    for e in t["ev"]:
-        if e["e"] == "wBegin" and exp.get(e["path"]) != e["content"]:
-            return "wrong-content-or-path"
-        if e["e"] == "ppBegin" and e["path"] not in exp:
-            return "wrong-content-or-path"
     if ret_ok:
         okw = {e["path"] for e in t["ev"] if e["e"] == "wEnd" and e["ok"]}
         if set(exp) - okw:
@@ -314,11 +323,16 @@ def run(ctx, args):
                 label="MC_Persist[n<=%d,k<=%d,pp:%s]" % (mn, mk, ppc))
 
     # ---- 2. generate schedules
-    cn, ck = T["cover"]
-    r = ctx.tlc(SPECDIR, "Gen_Persist", "gen.cfg",
-                files={"gen.cfg": GEN_CFG % (cn, ck, "VIEW View", "EmitState")}, timeout=3000,
-                label="Gen_Persist[cover n<=%d,k<=%d]" % (cn, ck))
-    cover = ctx.tlc_cases(r)
+    cover, seen = [], set()
+    for (cn, ck) in T["cover"]:
+        r = ctx.tlc(SPECDIR, "Gen_Persist", "gen.cfg",
+                    files={"gen.cfg": GEN_CFG % (cn, ck, "VIEW View", "EmitState")}, timeout=3000,
+                    label="Gen_Persist[cover n<=%d,k<=%d]" % (cn, ck))
+        for c in ctx.tlc_cases(r):
+            key = json.dumps([c["n"], c["k"], c["withpp"], c["wpc"], c["dpc"], c["pp"], c["wr"], c["nerrs"], c["got"]])
+            if key not in seen:
+                seen.add(key)
+                cover.append(c)
     sw = 4
     r = ctx.tlc(SPECDIR, "Gen_Persist", "gen.cfg",
                 files={"gen.cfg": GEN_CFG % (T["sim"]["n"], T["sim"]["k"], "", "EmitTerminal")},
